@@ -1,4 +1,5 @@
 pub mod bridge;
+pub mod c12sched;
 pub mod khconv;
 pub mod linkconv;
 pub mod matconv;
